@@ -160,7 +160,15 @@ func GenAlone(r *sim.Rng, maxOps int) *Alone {
 	}
 	genOps(r, e, n, 1<<20)
 	if mode != "size" {
-		e.EOS()
+		// the end marker is a match with distance 0xFFFFFFFF of any length
+		switch r.Intn(4) {
+		case 0:
+			e.EOSLen(r.Range(3, 273))
+		case 1:
+			e.EOSLen(sim.Pick(r, []int{3, 9, 10, 17, 18, 273}))
+		default:
+			e.EOS()
+		}
 	}
 	body := e.Finish()
 	h := make([]byte, 13)
